@@ -308,5 +308,6 @@ func entries() []entry {
 		_, err = d.DecodeAllDiagnostic()
 		return err
 	})
+	es = append(es, tagEntries()...)
 	return es
 }
